@@ -2289,15 +2289,11 @@ impl RawFont {
         let mut ordered_glyphs = Vec::new();
         if order_file.exists() {
             let order_data = fs::read_to_string(&order_file).map_err(Error::IoError)?;
-            let order_plist = Plist::parse(&order_data)
-                .map_err(|e| Error::ParseError(order_file.to_path_buf(), e.to_string()))?;
-            let order = order_plist
-                .expect_array()
+            // read the names the way `glyphname` is read, so that an unquoted name
+            // that looks like a number ('2') is still that name
+            let order = Vec::<SmolStr>::parse_plist(&order_data)
                 .map_err(|e| Error::ParseError(order_file.to_path_buf(), e.to_string()))?;
             for glyph_name in order {
-                let glyph_name = glyph_name
-                    .expect_string()
-                    .map_err(|e| Error::ParseError(order_file.to_path_buf(), e.to_string()))?;
                 if let Some(glyph) = glyphs.remove(glyph_name.as_str()) {
                     ordered_glyphs.push(glyph);
                 }
